@@ -16,6 +16,7 @@
  */
 
 use crate::collections::SmallMap;
+use crate::collections::SmallSet;
 use crate::eval::Evaluator;
 use crate::eval::compiler::def::Def;
 use crate::eval::compiler::def::FrozenDef;
@@ -76,11 +77,12 @@ fn inspect_local_variables<'v>(
         .rev()
         .find_map(to_scope_names_by_local_slot_id)?;
     let mut res = SmallMap::new();
+    let mut seen = SmallSet::new();
     for (slot, name) in names.iter().enumerate() {
         // The variable of a comprehension has a slot of its own, after the function's locals,
         // possibly under the name of one of them. Between statements (where a debugger looks)
-        // the name denotes the function's local.
-        if res.contains_key(name.as_str()) {
+        // the name denotes the function's local - also when that local is not assigned yet.
+        if !seen.insert(name.as_str()) {
             continue;
         }
         if let Some(v) = eval
@@ -126,8 +128,9 @@ fn inspect_frame_variables<'v>(
     }
 
     let mut res = SmallMap::with_capacity(names.len());
+    let mut seen = SmallSet::new();
     for (slot, name) in names.iter().enumerate() {
-        if res.contains_key(name.as_str()) {
+        if !seen.insert(name.as_str()) {
             continue;
         }
         if let Some(v) = frame_ptr
